@@ -36,14 +36,15 @@ type gnet struct {
 }
 
 type pend struct {
-	due  time.Duration // since start
-	seq  int
-	data []byte
-	orig []byte // genuine datagram before mutation (nil for triggers / injections)
-	gidx int    // genuine s2c index, -1 otherwise
-	fate string
-	inj  *injSpec // a scheduled injection (data crafted at delivery time)
-	trig bool     // "first client datagram seen" trigger
+	due   time.Duration // since start
+	seq   int
+	data  []byte
+	orig  []byte // genuine datagram before mutation (nil for triggers / injections)
+	gidx  int    // genuine s2c index, -1 otherwise
+	fate  string
+	inj   *injSpec // a scheduled injection (data crafted at delivery time)
+	trig  bool     // "first client datagram seen" trigger
+	toSrv bool     // a datagram for the server
 }
 
 const (
@@ -124,30 +125,32 @@ func (n *gnet) SendPacket(p simnet.Packet) error {
 	}
 	data := append([]byte(nil), p.Data...)
 	if d == dirC2S {
+		// towards the server: queued like the other direction, so that the server's reaction to every datagram
+		// can be observed too (the server's simnet link adds no latency of its own)
 		n.c2s = append(n.c2s, data)
-		dst := n.nodes[serverAddr.String()]
 		cb := n.onC2S
+		addS := func(b []byte, extra time.Duration, fate string) {
+			n.seq++
+			n.pending = append(n.pending, &pend{due: n.now() + n.latency + extra, seq: n.seq, data: b, orig: data, gidx: idx, fate: fate, toSrv: true})
+		}
+		if !has {
+			addS(data, 0, "ok")
+		} else {
+			switch f.kind {
+			case "drop":
+			case "dup":
+				addS(data, 0, "ok")
+				addS(append([]byte(nil), data...), 0, "dup")
+			case "delay":
+				addS(data, time.Duration(f.arg)*time.Millisecond, "delay")
+			default:
+				addS(mutate(f.kind, f.arg, data), 0, f.kind)
+			}
+		}
 		n.mu.Unlock()
+		n.signal()
 		if cb != nil {
 			cb(idx)
-		}
-		if dst == nil {
-			return nil
-		}
-		fwd := func(b []byte) { dst.RecvPacket(simnet.Packet{From: p.From, To: p.To, Data: b}) }
-		if !has {
-			fwd(data)
-			return nil
-		}
-		switch f.kind {
-		case "drop":
-		case "dup":
-			fwd(data)
-			fwd(append([]byte(nil), data...))
-		case "delay":
-			time.AfterFunc(time.Duration(f.arg)*time.Millisecond, func() { fwd(data) })
-		default:
-			fwd(mutate(f.kind, f.arg, data))
 		}
 		return nil
 	}
